@@ -36,9 +36,9 @@ RULE = ('every ordered pair of the value alphabet (quick 32, thorough 50 '
         'transitivity_triples); a case is non-trivial when the reference '
         'judges it and the two operands are different alphabet entries')
 BOUNDS = {
-    'quick': {'alphabet': 43, 'routes': 6, 'operators': 6,
+    'quick': {'alphabet': 49, 'routes': 6, 'operators': 6,
               'triples_per_full_route': 41 ** 3},
-    'thorough': {'alphabet': 60, 'routes': 9, 'operators': 6,
+    'thorough': {'alphabet': 65, 'routes': 10, 'operators': 6,
                  'triples_per_full_route': 58 ** 3},
 }
 ASSUMPTIONS = [
@@ -92,6 +92,10 @@ QUICK = [
     _text('straße'), _text('STRASSE'),
     # a hyphen or an apostrophe is a character like any other
     _text('-1'), _text('a-b'),
+    # ... and so are the characters that are wild cards in criteria
+    _text('abc'), _text('a*'), _text('a?c'),
+    # the first two months of 1900 (serial = days since 1899-12-31)
+    _date(1900, 2, 28), _num('i59', 'int', 59), _num('i60', 'int', 60),
     {'id': 'b:FALSE', 'cls': 'bool', 'carrier': 'bool', 'v': False},
     {'id': 'b:TRUE', 'cls': 'bool', 'carrier': 'bool', 'v': True},
     {'id': 'blank', 'cls': 'blank', 'carrier': 'absent', 'v': None},
@@ -104,7 +108,7 @@ EXTRA = [
     _num('f-1e10', 'float', -1e10), _num('f10.0', 'float', 10.0),
     _num('npi1', 'npint', 1), _num('npf2.5', 'npfloat', 2.5),
     _num('i61', 'int', 61), _date(1900, 3, 1),
-    _text('É'), _text('TRUE'), _text('abc'), _text('Ab'), _text("it's"),
+    _text('É'), _text('TRUE'), _text('Ab'), _text("it's"),
     _text('z'), _text(' a'), _text('a b'), _text('2020-01-01'),
 ]
 ALPHABET = {'quick': QUICK, 'thorough': QUICK + EXTRA}
@@ -453,7 +457,7 @@ def replay(inputs, ctx):
 
 def selftest():
     ref.selftest()
-    assert len(QUICK) == 43 and len(ALPHABET['thorough']) == 60
+    assert len(QUICK) == 49 and len(ALPHABET['thorough']) == 65
     ids = [v['id'] for v in ALPHABET['thorough']]
     assert len(ids) == len(set(ids))
     texts = [v['v'] for v in ALPHABET['thorough'] if v['cls'] == 'text']
@@ -482,7 +486,7 @@ TECHNIQUE = ('bounded-exhaustive enumeration of ordered pairs of a value '
              'library, against a reference rank, plus the order laws '
              '(trichotomy, consistency, converse, transitivity over all '
              'triples) evaluated on the observed relation')
-LEVEL_TEXT = ('All ordered pairs of 43 (thorough: 60) representative values '
+LEVEL_TEXT = ('All ordered pairs of 49 (thorough: 65) representative values '
               '- ints, floats, equal int/float pairs, dates with serials '
               'between the numbers, empty / numeric-looking / boolean-looking '
               '/ mixed-case / prefix texts, a non-ASCII text, both logicals '
